@@ -31,6 +31,44 @@ Proof. rewrite kltb_spec. destruct x; cbn; split; auto; congruence. Qed.
 Lemma klt_cons a p b q : klt (a :: p) (b :: q) <-> ((a < b)%N \/ (a = b /\ klt p q)).
 Proof. split; intros H; exact H. Qed.
 
+Lemma klt_nil_r (x : list N) : ~ klt x [].
+Proof. destruct x; cbn; tauto. Qed.
+Lemma klt_nil_cons (b : N) q : klt [] (b :: q).
+Proof. exact I. Qed.
+
+Lemma kleb_cons a p b q : kleb (a :: p) (b :: q) = true <-> ((a < b)%N \/ (a = b /\ kleb p q = true)).
+Proof.
+  rewrite !kleb_spec, klt_cons. split.
+  - intros [H|[H|[H1 H2]]]; [injection H as -> ->; right; split; [reflexivity|left; reflexivity]|left; exact H|right; split; [exact H1|right; exact H2]].
+  - intros [H|[-> [->|H]]]; [right; left; exact H|left; reflexivity|right; right; split; [reflexivity|exact H]].
+Qed.
+Lemma kltb_cons a p b q : kltb (a :: p) (b :: q) = true <-> ((a < b)%N \/ (a = b /\ kltb p q = true)).
+Proof. rewrite !kltb_spec, klt_cons. reflexivity. Qed.
+
+(* the keys that begin with a non-empty prefix are exactly those from the prefix (inclusive) to the prefix with its
+   last byte incremented (exclusive) *)
+Lemma prefix_range (p : list N) (a : N) k :
+  has_prefix (p ++ [a]) k = in_range (p ++ [a]) (p ++ [(a + 1)%N]) k.
+Proof.
+  revert k. induction p as [|c p IH]; intros k.
+  - cbn [app]. destruct k as [|b k'].
+    + reflexivity.
+    + cbn [has_prefix]. rewrite andb_true_r. unfold in_range.
+      apply eq_true_iff_eq. rewrite N.eqb_eq, andb_true_iff, kleb_cons, kltb_cons. split.
+      * intros ->. split; [right; split; [reflexivity|]|left; lia].
+        apply kleb_spec. destruct k'; [left; reflexivity|right; exact I].
+      * intros [[H1|[H1 _]] [H2|[H2 H3]]]; try lia. apply kltb_spec in H3. exfalso. eapply klt_nil_r. exact H3.
+  - cbn [app]. destruct k as [|b k'].
+    + reflexivity.
+    + cbn [has_prefix]. rewrite IH. unfold in_range.
+      apply eq_true_iff_eq. rewrite !andb_true_iff, N.eqb_eq, kleb_cons, kltb_cons. split.
+      * intros [-> [H1 H2]]. split; right; split; auto.
+      * intros [[H1|[H1 H1']] [H2|[H2 H2']]]; try lia. subst. auto.
+Qed.
+
+Lemma pfx_range k : has_prefix pfx k = in_range pfx pfx_end k.
+Proof. exact (prefix_range [47; 116; 114; 97; 110; 115; 102; 101; 114; 47; 102; 114; 111; 109]%N 47%N k). Qed.
+
 Section proofs.
   Context {V : Type}.
   Notation kv := (list N * V)%type.
@@ -137,10 +175,10 @@ Section proofs.
      bookmarks from the empty bookmark terminates and concatenates to exactly the entries
      whose key lies in the transfer range, in key order, without duplicates *)
   Theorem pages_partition (l : list kv) (size : Z) : StronglySorted key_lt l -> (1 <= size)%Z ->
-    all_pages (S (length l)) l size [] = Some (fr pfx (pfx ++ maxrune) l).
+    all_pages (S (length l)) l size [] = Some (fr pfx pfx_end l).
   Proof.
     intros Hs Hsz.
-    set (hi := pfx ++ maxrune).
+    set (hi := pfx_end).
     (* generalised: from any start s with s = pfx (empty bookmark) or s a returned bookmark *)
     assert (G : forall n bm, length (fr (match bm with [] => pfx | _ => bm end) hi l) <= n ->
                 (bm = [] \/ (bm <> [] /\ in_range pfx hi bm = true)) ->
@@ -151,7 +189,7 @@ Section proofs.
                       | _ :: _ => if has_prefix pfx bm then inr (page l pfx hi (Z.to_nat size) bm) else inl QBookmark
                       | [] => inr (page l pfx hi (Z.to_nat size) bm) end) = inr (page l pfx hi (Z.to_nat size) bm)).
         { destruct Hbm as [->|[Hne Hr]]; [reflexivity|]. destruct bm; [congruence|].
-          unfold hi in Hr. rewrite (in_range_has_prefix _ _ _ Hr). reflexivity. }
+          unfold hi in Hr. rewrite pfx_range, Hr. reflexivity. }
         fold hi. rewrite Hq, page_spec. cbn zeta.
         destruct (fr _ hi l) as [|x F] eqn:EF; [|cbn in Hlen; lia].
         rewrite firstn_nil, skipn_nil. reflexivity.
@@ -160,7 +198,7 @@ Section proofs.
                       | _ :: _ => if has_prefix pfx bm then inr (page l pfx hi (Z.to_nat size) bm) else inl QBookmark
                       | [] => inr (page l pfx hi (Z.to_nat size) bm) end) = inr (page l pfx hi (Z.to_nat size) bm)).
         { destruct Hbm as [->|[Hne Hr]]; [reflexivity|]. destruct bm; [congruence|].
-          unfold hi in Hr. rewrite (in_range_has_prefix _ _ _ Hr). reflexivity. }
+          unfold hi in Hr. rewrite pfx_range, Hr. reflexivity. }
         fold hi. rewrite Hq, page_spec. cbn zeta.
         set (s := match bm with [] => pfx | _ => bm end) in *.
         set (F := fr s hi l) in *. set (sz := Z.to_nat size).
@@ -227,14 +265,23 @@ Proof.
   apply kleb_spec. destruct a as [|x a]; [left; rewrite app_nil_r; reflexivity|right].
   induction p as [|y p IH]; [exact I|]. cbn [app]. apply klt_cons. right. split; [reflexivity|exact IH].
 Qed.
-(* an id whose first byte is below 0xF4 (every id that is not made of the last Unicode code
-   point) is stored under a key inside the listed range *)
-Theorem record_key_in_range (id : list N) c r : id = c :: r -> (c < 244)%N ->
-  in_range pfx (pfx ++ maxrune) (pfx ++ id) = true.
+(* every record key - the prefix followed by any id - lies inside the listed range, and nothing else does *)
+Theorem record_key_in_range (id : list N) : in_range pfx pfx_end (pfx ++ id) = true.
 Proof.
-  intros -> Hc. unfold in_range. rewrite kle_prefix. cbn [andb]. apply kltb_spec, klt_app_l.
-  unfold maxrune. apply klt_cons. left. exact Hc.
+  rewrite <- pfx_range. induction pfx as [|a p IH]; [reflexivity|]. cbn [app has_prefix]. rewrite N.eqb_refl. exact IH.
 Qed.
+Theorem listed_range_is_prefix (k : list N) : in_range pfx pfx_end k = true <-> exists id, k = pfx ++ id.
+Proof.
+  rewrite <- pfx_range. split.
+  - revert k. induction pfx as [|a p IH]; intros k H; [exists k; reflexivity|].
+    destruct k as [|b k']; [discriminate|]. cbn [has_prefix] in H. apply andb_true_iff in H. destruct H as [H1 H2].
+    apply N.eqb_eq in H1. subst b. destruct (IH k' H2) as [id ->]. exists id. reflexivity.
+  - intros [id ->]. induction pfx as [|a p IH]; [reflexivity|]. cbn [app has_prefix]. rewrite N.eqb_refl. exact IH.
+Qed.
+(* what the range that ended at prefix + U+10FFFF missed (finding F22): the record of an id that starts with that code point *)
+Theorem old_range_missed_a_record :
+  exists id, in_range pfx (pfx ++ maxrune) (pfx ++ id) = false /\ in_range pfx pfx_end (pfx ++ id) = true.
+Proof. exists [244; 143; 191; 191; 122]%N. split; vm_compute; reflexivity. Qed.
 
 (* ---- page sizes beyond the ledger ------------------------------------------------------------ *)
 Section clamp.
@@ -262,8 +309,8 @@ Section clamp.
     - rewrite Z.min_l by lia. reflexivity.
     - rewrite Z.min_r by lia. unfold query.
       destruct (Z.leb_spec size 0); [lia|]. destruct (Z.leb_spec (Z.of_nat (length l) + 1) 0); [lia|].
-      assert (Hp : forall b, page l pfx (pfx ++ maxrune) (Z.to_nat size) b =
-                             page l pfx (pfx ++ maxrune) (Z.to_nat (Z.of_nat (length l) + 1)) b).
+      assert (Hp : forall b, page l pfx pfx_end (Z.to_nat size) b =
+                             page l pfx pfx_end (Z.to_nat (Z.of_nat (length l) + 1)) b).
       { intros b. apply page_big; lia. }
       destruct bm as [|c r]; [rewrite Hp; reflexivity|]. destruct (has_prefix pfx (c :: r)); [rewrite Hp|]; reflexivity.
   Qed.
